@@ -270,6 +270,7 @@ def oracle (prop : String) (cols : Option (List LineSpec.Col)) (input : Bytes) (
     | none => none
   else if prop == "C14" then c14LineViolation input i
   else if prop == "C16" then c01Violation i   -- a rejected line yields no output at all; an accepted one exactly one line
+  else if prop == "C12" then c01Violation i   -- "non-finite floats never produce a number that marshals": a valid line or nothing
   else if i.panic then some "panic" else none
 
 def judge (prop : String) (what : String) (m : Outcome (Bytes × Option ErrClass)) (implS : String)
